@@ -27,7 +27,7 @@ func Run(r *ev.Run) {
 		"searchable columns with a per-column client id are not generated (search runs under the session identity)",
 	}
 	rng := gen.New(r.Seed, "c09")
-	n := r.Pick(14, 500)
+	n := r.Pick(60, 700)
 	for s := 0; s < n; s++ {
 		session(r, gen.New(r.Seed, fmt.Sprintf("c09-%d-%d", s, rng.Int63())), s)
 	}
